@@ -250,7 +250,13 @@ def build_funcs(d, n, ctx):
     for k in range(n):
         if k:
             lines.append("")
-        lines += simple_func(("ft_s%d" if ctx["protos"] and k < 3 else "ft_f%d") % k, ctx["sizes"][k % len(ctx["sizes"])], static=ctx["protos"] and k < 3)
+        fl = simple_func(("ft_s%d" if ctx["protos"] and k < 3 else "ft_f%d") % k, ctx["sizes"][k % len(ctx["sizes"])], static=ctx["protos"] and k < 3)
+        if ctx.get("pp") is not None and k == ctx["pp"] % n:
+            # a conditional block between the declarator and the brace (debug hooks are written like this): still one function
+            fl[1:1] = ["#ifdef FT_DEBUG", "#endif"] if ctx.get("pp_kind", 0) == 0 else ["#ifdef FT_DEBUG", "# define FT_TRACE 1", "#endif"]
+        elif ctx.get("cmt") is not None and k == ctx["cmt"] % n:
+            fl[1:1] = ["// the body follows"]
+        lines += fl
     return name, "\n".join(lines) + "\n", None
 
 
@@ -333,7 +339,8 @@ def context(d):
         nf = d.int(1, 5)
         return limit, {"ndecl": d.int(0, 5), "nfuncs": nf, "which": d.int(0, nf - 1), "other_sizes": [d.int(1, 25) for _ in range(3)], "in_header": d.bool(0.25)}, d
     if limit == "funcs":
-        return limit, {"protos": d.bool(0.4), "sizes": [d.int(1, 6) for _ in range(4)]}, d
+        return limit, {"protos": d.bool(0.4), "sizes": [d.int(1, 6) for _ in range(4)], "pp": d.int(0, 9) if d.bool(0.3) else None, "pp_kind": d.int(0, 1),
+                       "cmt": d.int(0, 9) if d.bool(0.2) else None}, d
     if limit == "params":
         return limit, {"where": d.choice(["def", "proto", "def-fptr-ret", "proto-fptr-ret"]), "forms": [d.choice(PARAM_FORMS) for _ in range(4)], "ret_n": d.int(1, 6), "variadic": d.bool(0.15)}, d
     return limit, {"forms": [d.choice(DECL_FORMS) for _ in range(4)], "before": d.int(0, 5), "late": d.weighted([(4, 0), (1, 1), (1, 2)])}, d
@@ -345,7 +352,7 @@ def ctx_class(limit, ctx):
     if limit == "lines":
         return "f%d/of%d/decl%d%s" % (ctx["which"], ctx["nfuncs"], ctx["ndecl"], "/in-header" if ctx.get("in_header") else "")
     if limit == "funcs":
-        return "protos" if ctx["protos"] else "plain"
+        return ("protos" if ctx["protos"] else "plain") + ("/directive-before-brace" if ctx.get("pp") is not None else "/comment-before-brace" if ctx.get("cmt") is not None else "")
     if limit == "params":
         return ctx["where"] + ("/fptr" if any("(*" in f for f in ctx["forms"]) else "")
     return "before%d%s%s" % (ctx["before"], "/fptr" if any("(*" in f for f in ctx["forms"]) else "", "/late" if ctx.get("late") else "")
